@@ -7,10 +7,21 @@
 //        -> ok fit <v> outs <o|u>*n diff <d>*n
 //   con <penalty> <mae|…> <fast> <prog> <n> rows…            (constrained_evaluator around reg)
 //        -> ok fitv <k> <v>*k outs … diff …
-//   cls <dyn|gau|bin> <x_slot> <prog> <n> (<class> <x1|u> <x2|u> <difficulty>)*n
-//        -> ok fit <v> classes <C> tags (<label> <sureness>)*n labels <l>*n diff <d>*n
-//   ga <value>                                               (ga_evaluator over i_ga)
+//   cls|clsf <dyn|gau|bin> <x_slot> <prog> <n> (<class> <x1|u> <x2|u> <difficulty>)*n
+//        (clsf: `fast()` called through a reference to the base class `evaluator<T>`)
+//        -> ok fit <v> classes <C> members <M> mouts (<o|u>*n)*M tags (<label> <sureness>)*n labels <l>*n diff <d>*n
+//        `mouts` = the per-example output of every member program (1 for an individual), computed with a
+//        separate basic_reg_lambda_f: the input of the documented classification rule
+//   ga|gaf|de|def <value>                                    (ga_evaluator over i_ga / i_de; f = `fast()`)
 //        -> ok fitv <k> <v>*k
+//   gac <ptype> <penalty> <fast 0|1> <ga|de> <value>         (constrained_evaluator around ga_evaluator)
+//        -> ok fitv <k> <v>*k
+//   conp <ptype> <penalty> <mae|…> <fast> <prog> <n> rows…   (constrained_evaluator, penalty function of
+//        return type <ptype>: d double lambda, fn penalty_func_t (std::function), fl float, i int,
+//        u unsigned, l long long, ul std::size_t, b bool; <penalty> = bit pattern (d, fn, fl) or a decimal integer)
+//        -> ok fitv <k> <v>*k outs … diff …
+//   tev <distinct|fixed|random> <fast 0|1> <k> <id>*k         (test_evaluator<i_de>, one object, k calls; the
+//        individual with id i has genome {i})      -> ok seq <v>*k   (`size=<s>` for a fitness of another size)
 //   small <value>  -> 0 | 1                                  (vita::issmall)
 //
 // doubles: decimal 64-bit patterns, `nan` = any NaN, `u` = no value (empty value_t).
@@ -19,6 +30,7 @@
 
 #include "kernel/vita.h"
 #include "kernel/ga/i_ga.h"
+#include "kernel/ga/i_de.h"
 #include "kernel/ga/evaluator.h"
 #include "kernel/constrained_evaluator.h"
 #include "kernel/gp/src/evaluator.h"
@@ -121,9 +133,53 @@ std::string showfitv(const fitness_t &f)
   return s;
 }
 
+// ---- penalties of every shape ------------------------------------------------------------
+// A penalty "shape" is the return type of the penalty function handed to constrained_evaluator.
+struct pen_spec
+{
+  std::string type;      // d fn fl i u l ul b
+  double dv = 0.0;       // d, fn, fl
+  long long iv = 0;      // i, u, l, b
+  unsigned long long uv = 0;  // ul
+};
+
+bool parse_pen(const std::string &type, const std::string &val, pen_spec &p)
+{
+  p.type = type;
+  if (type == "d" || type == "fn" || type == "fl") return parsef(val, p.dv);
+  if (type == "ul")
+  {
+    if (val.empty() || val.find_first_not_of("0123456789") != std::string::npos) return false;
+    p.uv = std::stoull(val);
+    return true;
+  }
+  if (type == "i" || type == "u" || type == "l" || type == "b")
+  {
+    if (val.empty()) return false;
+    p.iv = std::stoll(val);
+    return true;
+  }
+  return false;
+}
+
+// Calls `k(penalty function)` with a function of the requested return type.
+template<class T, class K>
+std::string with_penalty(const pen_spec &p, K k)
+{
+  if (p.type == "d") { const double v(p.dv); return k([v](const T &) { return v; }); }
+  if (p.type == "fn") { const double v(p.dv); return k(penalty_func_t<T>([v](const T &) { return v; })); }
+  if (p.type == "fl") { const float v(static_cast<float>(p.dv)); return k([v](const T &) { return v; }); }
+  if (p.type == "i") { const int v(static_cast<int>(p.iv)); return k([v](const T &) { return v; }); }
+  if (p.type == "u") { const unsigned v(static_cast<unsigned>(p.iv)); return k([v](const T &) { return v; }); }
+  if (p.type == "l") { const long long v(p.iv); return k([v](const T &) { return v; }); }
+  if (p.type == "ul") { const std::size_t v(static_cast<std::size_t>(p.uv)); return k([v](const T &) { return v; }); }
+  if (p.type == "b") { const bool v(p.iv != 0); return k([v](const T &) { return v; }); }
+  return "bad-op";
+}
+
 // ---- regression --------------------------------------------------------------------------
 template<class T, class EVA>
-std::string run_reg(const T &prg, dataframe &d, bool fast, const double *pen)
+std::string run_reg(const T &prg, dataframe &d, bool fast, const pen_spec *pen)
 {
   // the program's outputs, computed independently of the evaluator
   std::string outs(" outs");
@@ -135,15 +191,18 @@ std::string run_reg(const T &prg, dataframe &d, bool fast, const double *pen)
   std::string res;
   if (pen)
   {
-    const double p(*pen);
-    auto pf = [p](const T &) { return p; };
-    constrained_evaluator<T, EVA, decltype(pf)> ce(EVA(d), pf);
-    res = showfitv(fast ? ce.fast(prg) : ce(prg));
+    res = with_penalty<T>(*pen, [&](auto pf) {
+      constrained_evaluator<T, EVA, decltype(pf)> ce(EVA(d), pf);
+      evaluator<T> &base(ce);                     // virtual dispatch, as the search classes do
+      return showfitv(fast ? base.fast(prg) : base(prg));
+    });
+    if (res == "bad-op") return res;
   }
   else
   {
     EVA eva(d);
-    res = showfit(fast ? eva.fast(prg) : eva(prg));
+    evaluator<T> &base(eva);
+    res = showfit(fast ? base.fast(prg) : base(prg));
   }
 
   std::string diff(" diff");
@@ -153,7 +212,7 @@ std::string run_reg(const T &prg, dataframe &d, bool fast, const double *pen)
 
 template<class T>
 std::string run_reg_kind(const std::string &kind, const T &prg, dataframe &d, bool fast,
-                         const double *pen)
+                         const pen_spec *pen)
 {
   if (kind == "mae") return run_reg<T, mae_evaluator<T>>(prg, d, fast, pen);
   if (kind == "rmae") return run_reg<T, rmae_evaluator<T>>(prg, d, fast, pen);
@@ -162,7 +221,7 @@ std::string run_reg_kind(const std::string &kind, const T &prg, dataframe &d, bo
   return "bad-op";
 }
 
-std::string do_reg(symbols &S, const std::vector<std::string> &t, std::size_t at, const double *pen)
+std::string do_reg(symbols &S, const std::vector<std::string> &t, std::size_t at, const pen_spec *pen)
 {
   // t[at..] = kind fast prog n rows…
   if (t.size() < at + 4) return "bad-op";
@@ -198,9 +257,21 @@ std::string do_reg(symbols &S, const std::vector<std::string> &t, std::size_t at
 }
 
 // ---- classification ----------------------------------------------------------------------
+std::vector<i_mep> members_of(const i_mep &p) { return {p}; }
+std::vector<i_mep> members_of(const team<i_mep> &t) { return std::vector<i_mep>(t.begin(), t.end()); }
+
 template<class T, class L, class EVA, class... A>
-std::string run_cls(const T &prg, dataframe &d, A... a)
+std::string run_cls(const T &prg, dataframe &d, bool fast, A... a)
 {
+  // the output of every member program on every example: what the documented rules start from
+  const auto ms(members_of(prg));
+  std::string mouts(" members " + std::to_string(ms.size()) + " mouts");
+  for (const auto &m : ms)
+  {
+    basic_reg_lambda_f<i_mep, false> agent(m);
+    for (const auto &e : d) mouts += " " + show(agent(e));
+  }
+
   std::string tags(" tags"), labels(" labels");
   {
     L lambda(prg, d, a...);
@@ -213,26 +284,27 @@ std::string run_cls(const T &prg, dataframe &d, A... a)
   }
 
   EVA eva(d, a...);
-  const auto fit(eva(prg));
+  evaluator<T> &base(eva);
+  const auto fit(fast ? base.fast(prg) : base(prg));
 
   std::string diff(" diff");
   for (const auto &e : d) diff += " " + std::to_string(e.difficulty);
-  return "ok " + showfit(fit) + " classes " + std::to_string(d.classes()) + tags + labels + diff;
+  return "ok " + showfit(fit) + " classes " + std::to_string(d.classes()) + mouts + tags + labels + diff;
 }
 
 template<class T>
-std::string run_cls_kind(const std::string &kind, unsigned x_slot, const T &prg, dataframe &d)
+std::string run_cls_kind(const std::string &kind, unsigned x_slot, const T &prg, dataframe &d, bool fast)
 {
   if (kind == "dyn")
-    return run_cls<T, basic_dyn_slot_lambda_f<T, false, false>, dyn_slot_evaluator<T>>(prg, d, x_slot);
+    return run_cls<T, basic_dyn_slot_lambda_f<T, false, false>, dyn_slot_evaluator<T>>(prg, d, fast, x_slot);
   if (kind == "gau")
-    return run_cls<T, basic_gaussian_lambda_f<T, false, false>, gaussian_evaluator<T>>(prg, d);
+    return run_cls<T, basic_gaussian_lambda_f<T, false, false>, gaussian_evaluator<T>>(prg, d, fast);
   if (kind == "bin")
-    return run_cls<T, basic_binary_lambda_f<T, false, false>, binary_evaluator<T>>(prg, d);
+    return run_cls<T, basic_binary_lambda_f<T, false, false>, binary_evaluator<T>>(prg, d, fast);
   return "bad-op";
 }
 
-std::string do_cls(symbols &S, const std::vector<std::string> &t)
+std::string do_cls(symbols &S, const std::vector<std::string> &t, bool fast)
 {
   // cls kind x_slot prog n rows…
   if (t.size() < 5) return "bad-op";
@@ -266,11 +338,36 @@ std::string do_cls(symbols &S, const std::vector<std::string> &t)
     std::vector<i_mep> members;
     for (const auto &p : split_on(prog.substr(2), ',')) members.push_back(S.make(p));
     const team<i_mep> tm(members);
-    return run_cls_kind(kind, x_slot, tm, d);
+    return run_cls_kind(kind, x_slot, tm, d, fast);
   }
 
   const i_mep ind(S.make(prog));
-  return run_cls_kind(kind, x_slot, ind, d);
+  return run_cls_kind(kind, x_slot, ind, d, fast);
+}
+
+// ---- GA / DE -----------------------------------------------------------------------------
+// The objective function reads its value from the individual's genome.
+template<class T> T make_param_ind(double v);
+template<> i_ga make_param_ind<i_ga>(double) { return i_ga{}; }
+template<> i_de make_param_ind<i_de>(double v) { i_de x; x = std::vector<double>{v}; return x; }
+
+template<class T>
+std::string run_ga(double v, bool fast, const pen_spec *pen)
+{
+  const T ind(make_param_ind<T>(v));
+  auto f = [v](const T &x) {
+    if constexpr (std::is_same_v<T, i_de>) return x[0];
+    else return v;
+  };
+  if (pen)
+    return with_penalty<T>(*pen, [&](auto pf) {
+      constrained_evaluator<T, ga_evaluator<T, decltype(f)>, decltype(pf)> ce(make_ga_evaluator<T>(f), pf);
+      evaluator<T> &base(ce);
+      return "ok " + showfitv(fast ? base.fast(ind) : base(ind));
+    });
+  auto eva(make_ga_evaluator<T>(f));
+  evaluator<T> &base(eva);
+  return "ok " + showfitv(fast ? base.fast(ind) : base(ind));
 }
 
 std::string do_ga(const std::vector<std::string> &t)
@@ -278,10 +375,47 @@ std::string do_ga(const std::vector<std::string> &t)
   if (t.size() != 2) return "bad-op";
   double v;
   if (!parsef(t[1], v)) return "bad-op";
-  auto f = [v](const i_ga &) { return v; };
-  auto eva(make_ga_evaluator<i_ga>(f));
-  const i_ga ind{};
-  return "ok " + showfitv(eva(ind));
+  const bool fast(t[0] == "gaf" || t[0] == "def");
+  if (t[0] == "de" || t[0] == "def") return run_ga<i_de>(v, fast, nullptr);
+  return run_ga<i_ga>(v, fast, nullptr);
+}
+
+std::string do_gac(const std::vector<std::string> &t)
+{
+  // gac ptype penalty fast ga|de value
+  if (t.size() != 6) return "bad-op";
+  pen_spec p;
+  double v;
+  if (!parse_pen(t[1], t[2], p) || !parsef(t[5], v)) return "bad-op";
+  const bool fast(t[3] == "1");
+  if (t[4] == "de") return run_ga<i_de>(v, fast, &p);
+  if (t[4] == "ga") return run_ga<i_ga>(v, fast, &p);
+  return "bad-op";
+}
+
+// ---- test_evaluator ----------------------------------------------------------------------
+std::string do_tev(const std::vector<std::string> &t)
+{
+  if (t.size() < 4) return "bad-op";
+  test_evaluator_type ty;
+  if (t[1] == "distinct") ty = test_evaluator_type::distinct;
+  else if (t[1] == "fixed") ty = test_evaluator_type::fixed;
+  else if (t[1] == "random") ty = test_evaluator_type::random;
+  else return "bad-op";
+  const bool fast(t[2] == "1");
+  const std::size_t k(std::stoull(t[3]));
+  if (t.size() != 4 + k) return "bad-op";
+
+  test_evaluator<i_de> eva(ty);
+  evaluator<i_de> &base(eva);
+  std::string seq("ok seq");
+  for (std::size_t i(0); i < k; ++i)
+  {
+    const auto fit(fast ? base.fast(make_param_ind<i_de>(std::stod(t[4 + i])))
+                        : base(make_param_ind<i_de>(std::stod(t[4 + i]))));
+    seq += fit.size() == 1 ? " " + showf(fit[0]) : " size=" + std::to_string(fit.size());
+  }
+  return seq;
 }
 }  // namespace
 
@@ -302,11 +436,19 @@ int main()
       if (t[0] == "reg") ans = do_reg(S, t, 1, nullptr);
       else if (t[0] == "con")
       {
-        double pen;
-        ans = (t.size() > 2 && parsef(t[1], pen)) ? do_reg(S, t, 2, &pen) : "bad-op";
+        pen_spec pen;
+        ans = (t.size() > 2 && parse_pen("d", t[1], pen)) ? do_reg(S, t, 2, &pen) : "bad-op";
       }
-      else if (t[0] == "cls") ans = do_cls(S, t);
-      else if (t[0] == "ga") ans = do_ga(t);
+      else if (t[0] == "conp")
+      {
+        pen_spec pen;
+        ans = (t.size() > 3 && parse_pen(t[1], t[2], pen)) ? do_reg(S, t, 3, &pen) : "bad-op";
+      }
+      else if (t[0] == "cls") ans = do_cls(S, t, false);
+      else if (t[0] == "clsf") ans = do_cls(S, t, true);
+      else if (t[0] == "ga" || t[0] == "gaf" || t[0] == "de" || t[0] == "def") ans = do_ga(t);
+      else if (t[0] == "gac") ans = do_gac(t);
+      else if (t[0] == "tev") ans = do_tev(t);
       else if (t[0] == "small")
       {
         double v;
